@@ -15,7 +15,7 @@ meta = json.load(open(os.path.join(d, "meta.json")))
 checks = [meta["property"]]
 tier = "quick"
 if "--checks" in args:
-    checks = args[args.index("--checks") + 1].split(",")
+    checks = [c for c in args[args.index("--checks") + 1].split(",") if c]
 if "--tier" in args:
     tier = args[args.index("--tier") + 1]
 scratch = tempfile.mkdtemp(prefix="seedtest_", dir="/tmp")
